@@ -851,6 +851,8 @@ impl TxPoolService {
         for tx in txs {
             let tx_size = tx.data().serialized_size_in_block();
             let tx_hash = tx.hash();
+            let detached_tx = tx.clone();
+            let mut readded = false;
             if let Ok((rtx, status)) = resolve_tx(tx_pool, tx_pool.snapshot(), tx, false)
                 && let Ok(fee) = check_tx_fee(tx_pool, tx_pool.snapshot(), &rtx, tx_size)
             {
@@ -873,7 +875,15 @@ impl TxPoolService {
                         error!("readd_detached_tx submit_entry {} error {}", tx_hash, e);
                     } else {
                         debug!("readd_detached_tx submit_entry {}", tx_hash);
+                        readded = true;
                     }
+                }
+            }
+            if !readded && !tx_pool.contains_proposal_id(&detached_tx.proposal_short_id()) {
+                // the detached transaction is gone from the chain and could not return to the
+                // pool: pooled transactions built on its outputs have lost their parent
+                for (entry, reject) in tx_pool.pool_map.remove_children_of(&detached_tx) {
+                    self.callbacks.call_reject(tx_pool, &entry, reject);
                 }
             }
         }
